@@ -227,7 +227,7 @@ class C15(Suite):
     kf = "kf15"
     kf_ids = {1: "F-C15-1", 2: "F-C15-2"}
     corr = "Graph.query / Dataset.query, evaluate.evalQuery (initBindings), algebra.reorderTriples/analyse/translate, sparql.FrozenDict (hash/eq of solutions under DISTINCT and the hash join)"
-    quick_n = 300
+    quick_n = 220
     thorough_n = 3000
     timeout_s = 20.0
 
@@ -357,7 +357,7 @@ class C15Same(Suite):
     corr = ("prepareQuery + Graph.query(prepared, initBindings=...) repeatedly on one Query object, SPARQLProcessor.query, "
             "sparql.FrozenBindings.forget/FrozenDict.__hash__, evalDistinct/evalReduced, back ends Memory / SimpleMemory / "
             "AuditableStore / ReadOnlyGraphAggregate")
-    quick_n = 250
+    quick_n = 180
     thorough_n = 2500
     timeout_s = 30.0
 
